@@ -42,6 +42,8 @@ def _child(scen, wfd):
             n = seq.value
             os.write(wfd, (json.dumps([n, kw]) + "\n").encode())
 
+    uids = []
+
     class Wk(opp.FunctorWorker):
         def __init__(self, quota):
             if quota:
@@ -49,21 +51,23 @@ def _child(scen, wfd):
             else:
                 super().__init__()
             self._q = quota or 0
+            self._uid = len(uids)            # creation order (the parent creates every worker), see poolsim.Wk
+            uids.append(self._uid)
 
         def begin(self):
-            ev(op="wbegin", w=self.wid, q=self._q)
+            ev(op="wbegin", w=self._uid, q=self._q)
             time.sleep(scen.get("begin_sleep", 0))
-            ev(op="wready", w=self.wid)
+            ev(op="wready", w=self._uid)
 
         def __call__(self, x):
             c, i = x // 1000, x % 1000
             ch = scen["calls"][c - 1]["chunk"] if 1 <= c <= len(scen["calls"]) else 1
-            ev(op="witem", w=self.wid, c=c, i=i, chunk=ch)
+            ev(op="witem", w=self._uid, c=c, i=i, chunk=ch)
             time.sleep(scen.get("work_sleep", 0) * ((i % 3) + 1))
             return f(x)
 
         def end(self):
-            ev(op="wend", w=self.wid)
+            ev(op="wend", w=self._uid)
             time.sleep(scen.get("end_sleep", 0))
 
     def data_of(c, call):
@@ -98,7 +102,7 @@ def _child(scen, wfd):
         with pool:
             if scen.get("uar") == "start":
                 pool.until_all_ready()
-                ev(op="all_ready", ws=[p.wid for p in pool.procs])
+                ev(op="all_ready", ws=[p._uid for p in pool.procs])
             for ci, call in enumerate(scen["calls"]):
                 c = ci + 1
                 ev(op="call_begin", c=c, n=call["n"], chunk=call["chunk"], ord=1 if call["ordered"] else 0)
